@@ -17,6 +17,8 @@ pub enum Class {
     NumPart,
     Str,
     Symbol,
+    /// word-like lexeme that is neither keyword nor identifier (UDP table symbols): spaced like a word, not leaf-checked
+    Raw,
 }
 
 #[derive(Clone, Debug)]
@@ -83,6 +85,8 @@ pub const F_DESIGN: &[&str] = &[
     "ConfigDeclaration",
     "FunctionPrototype",
     "TaskPrototype",
+    "UdpDeclarationNonansi",
+    "UdpDeclarationAnsi",
 ];
 pub const F_PORT: &[&str] = &[
     "AnsiPortDeclarationNet",
@@ -195,6 +199,9 @@ impl<'a, 'b> Gen<'a, 'b> {
     pub fn sym(&mut self, s: &str) -> usize {
         self.push(s, Class::Symbol)
     }
+    pub fn raw(&mut self, s: &str) -> usize {
+        self.push(s, Class::Raw)
+    }
     pub fn num(&mut self, s: &str) -> usize {
         self.push(s, Class::Number)
     }
@@ -274,7 +281,7 @@ impl<'a, 'b> Gen<'a, 'b> {
 // layout
 
 fn wordy(c: Class) -> bool {
-    matches!(c, Class::Keyword | Class::Ident | Class::SysIdent | Class::Number | Class::NumPart | Class::EscIdent)
+    matches!(c, Class::Keyword | Class::Ident | Class::SysIdent | Class::Number | Class::NumPart | Class::EscIdent | Class::Raw)
 }
 
 const SAFE: &[&str] = &["(", ")", "[", "]", "{", "}", ",", ";"];
